@@ -493,98 +493,180 @@ fn base_cfg(ctx: usize, top: bool) -> Cfg {
     }
 }
 
-pub fn all_cfgs(thorough: bool) -> Vec<(String, Cfg)> {
-    let mut out: Vec<(String, Cfg)> = vec![];
+type Setter = Box<dyn Fn(&mut Cfg) + Send + Sync>;
+
+/// The option groups of the grammar; each entry of a group sets that group's fields.
+fn groups(thorough: bool) -> Vec<(&'static str, Vec<Setter>)> {
     let lt = lifetime_choices();
     let mt = mtu_choices();
     let npre = prefix_alphabet().len();
+    let mut gs: Vec<(&'static str, Vec<Setter>)> = vec![];
+    // header group: full product hop x M x O
+    let mut g: Vec<Setter> = vec![];
+    for h in hop_choices() {
+        for m in bool_choices() {
+            for o in bool_choices() {
+                let (h, m, o) = (h.clone(), m.clone(), o.clone());
+                g.push(Box::new(move |c: &mut Cfg| {
+                    c.hop = h.clone();
+                    c.managed = m.clone();
+                    c.other = o.clone();
+                }));
+            }
+        }
+    }
+    gs.push(("header", g));
+    let mut g: Vec<Setter> = vec![];
+    for (l, unspec) in &lt {
+        for r in ms_choices() {
+            for t in if thorough { ms_choices() } else { vec![ms_choices()[0].clone(), ms_choices()[4].clone()] } {
+                let (l, unspec, r, t) = (l.clone(), *unspec, r.clone(), t.clone());
+                g.push(Box::new(move |c: &mut Cfg| {
+                    c.lifetime = l.clone();
+                    c.lifetime_unspecified = unspec;
+                    c.reachable = r.clone();
+                    c.retrans = t.clone();
+                }));
+            }
+        }
+    }
+    gs.push(("timers", g));
+    // mtu group: config x interface mtu x link-layer address
+    let mut g: Vec<Setter> = vec![];
+    for (m, from_if) in &mt {
+        for if_mtu in [None, Some(1500u32), Some(0xffff_ffff)] {
+            for ll in [false, true] {
+                let (m, from_if) = (m.clone(), *from_if);
+                g.push(Box::new(move |c: &mut Cfg| {
+                    c.mtu = m.clone();
+                    c.mtu_from_interface = from_if;
+                    c.if_mtu = if_mtu;
+                    c.ll = ll;
+                }));
+            }
+        }
+    }
+    gs.push(("mtu", g));
+    // prefixes: all lists of length 0..2 (thorough 0..3)
+    let mut lists: Vec<Vec<usize>> = vec![vec![]];
+    for i in 0..npre {
+        lists.push(vec![i]);
+        for j in 0..npre {
+            lists.push(vec![i, j]);
+            if thorough {
+                for k in 0..npre {
+                    lists.push(vec![i, j, k]);
+                }
+            }
+        }
+    }
+    let mut g: Vec<Setter> = vec![];
+    for l in lists {
+        g.push(Box::new(move |c: &mut Cfg| c.prefixes = l.clone()));
+    }
+    gs.push(("prefixes", g));
+    let mut g: Vec<Setter> = vec![];
+    for r in 0..rdnss_choices().len() {
+        for l in 0..opt_lifetime_choices().len() {
+            g.push(Box::new(move |c: &mut Cfg| {
+                c.rdnss = r;
+                c.rdnss_lifetime = l;
+            }));
+        }
+    }
+    gs.push(("rdnss", g));
+    let mut g: Vec<Setter> = vec![];
+    for r in 0..dnssl_choices().len() {
+        for l in 0..opt_lifetime_choices().len() {
+            g.push(Box::new(move |c: &mut Cfg| {
+                c.dnssl = r;
+                c.dnssl_lifetime = l;
+            }));
+        }
+    }
+    gs.push(("dnssl", g));
+    let mut g: Vec<Setter> = vec![];
+    for p in 0..pref64_choices().len() {
+        for l in 0..pref64_lifetime_choices().len() {
+            g.push(Box::new(move |c: &mut Cfg| {
+                c.pref64 = p;
+                c.pref64_lifetime = l;
+            }));
+        }
+    }
+    gs.push(("pref64", g));
+    let mut g: Vec<Setter> = vec![];
+    for p in 0..portal_choices().len() {
+        g.push(Box::new(move |c: &mut Cfg| c.portal = p));
+    }
+    gs.push(("portal", g));
+    gs
+}
+
+pub fn all_cfgs(thorough: bool) -> Vec<(String, Cfg)> {
+    let mut out: Vec<(String, Cfg)> = vec![];
+    let gs = groups(thorough);
+    // for the pairwise products the prefix group is cut to lists of length <= 1 (8 entries) and the
+    // timers group to the lifetime axis, or the products explode without adding interactions
+    let pair_cap = |name: &str, len: usize| -> usize {
+        match name {
+            "prefixes" => len.min(8),
+            _ => len,
+        }
+    };
     for ctx in 0..3 {
         for top in [false, true] {
             let b = base_cfg(ctx, top);
             out.push((format!("base{ctx}"), b.clone()));
-            // header group: full product hop x M x O (x lifetime in thorough)
-            for h in hop_choices() {
-                for m in bool_choices() {
-                    for o in bool_choices() {
-                        let mut c = b.clone();
-                        c.hop = h.clone();
-                        c.managed = m.clone();
-                        c.other = o.clone();
-                        out.push(("header".into(), c));
-                    }
+            // every group alone: its full product on the base context
+            for (name, g) in &gs {
+                for set in g {
+                    let mut c = b.clone();
+                    set(&mut c);
+                    out.push(((*name).into(), c));
                 }
             }
-            for (l, unspec) in &lt {
-                for r in ms_choices() {
-                    for t in if thorough { ms_choices() } else { vec![ms_choices()[0].clone(), ms_choices()[4].clone()] } {
-                        let mut c = b.clone();
-                        c.lifetime = l.clone();
-                        c.lifetime_unspecified = *unspec;
-                        c.reachable = r.clone();
-                        c.retrans = t.clone();
-                        out.push(("timers".into(), c));
-                    }
-                }
-            }
-            // mtu group: config x interface mtu x link-layer address
-            for (m, from_if) in &mt {
-                for if_mtu in [None, Some(1500u32), Some(0xffff_ffff)] {
-                    for ll in [false, true] {
-                        let mut c = b.clone();
-                        c.mtu = m.clone();
-                        c.mtu_from_interface = *from_if;
-                        c.if_mtu = if_mtu;
-                        c.ll = ll;
-                        out.push(("mtu".into(), c));
-                    }
-                }
-            }
-            // prefixes: all lists of length 0..2 (thorough 0..3)
-            let mut lists: Vec<Vec<usize>> = vec![vec![]];
-            for i in 0..npre {
-                lists.push(vec![i]);
-                for j in 0..npre {
-                    lists.push(vec![i, j]);
-                    if thorough {
-                        for k in 0..npre {
-                            lists.push(vec![i, j, k]);
+            // every pair of groups, full product of the two (cross-group interactions:
+            // one option's field read by another option's serialiser, shared scratch values, ...)
+            {
+                for i in 0..gs.len() {
+                    for j in i + 1..gs.len() {
+                        let (ni, gi) = (&gs[i].0, &gs[i].1);
+                        let (nj, gj) = (&gs[j].0, &gs[j].1);
+                        let (li, lj) = (pair_cap(ni, gi.len()), pair_cap(nj, gj.len()));
+                        let step_i = if *ni == "timers" { 5 } else { 1 };
+                        let step_j = if *nj == "timers" { 5 } else { 1 };
+                        for si in gi.iter().take(li).step_by(step_i) {
+                            for sj in gj.iter().take(lj).step_by(step_j) {
+                                let mut c = b.clone();
+                                si(&mut c);
+                                sj(&mut c);
+                                out.push((format!("{ni}x{nj}"), c));
+                            }
                         }
                     }
                 }
             }
-            for l in lists {
-                let mut c = b.clone();
-                c.prefixes = l;
-                out.push(("prefixes".into(), c));
-            }
-            for r in 0..rdnss_choices().len() {
-                for l in 0..opt_lifetime_choices().len() {
-                    let mut c = b.clone();
-                    c.rdnss = r;
-                    c.rdnss_lifetime = l;
-                    out.push(("rdnss".into(), c));
+            // thorough: every triple of the smaller groups
+            if thorough {
+                let small: Vec<usize> = (0..gs.len()).filter(|i| gs[*i].1.len() <= 60).collect();
+                for (a, &i) in small.iter().enumerate() {
+                    for (bb, &j) in small.iter().enumerate().skip(a + 1) {
+                        for &k in small.iter().skip(bb + 1) {
+                            for si in gs[i].1.iter() {
+                                for sj in gs[j].1.iter() {
+                                    for sk in gs[k].1.iter() {
+                                        let mut c = b.clone();
+                                        si(&mut c);
+                                        sj(&mut c);
+                                        sk(&mut c);
+                                        out.push((format!("{}x{}x{}", gs[i].0, gs[j].0, gs[k].0), c));
+                                    }
+                                }
+                            }
+                        }
+                    }
                 }
-            }
-            for r in 0..dnssl_choices().len() {
-                for l in 0..opt_lifetime_choices().len() {
-                    let mut c = b.clone();
-                    c.dnssl = r;
-                    c.dnssl_lifetime = l;
-                    out.push(("dnssl".into(), c));
-                }
-            }
-            for p in 0..pref64_choices().len() {
-                for l in 0..pref64_lifetime_choices().len() {
-                    let mut c = b.clone();
-                    c.pref64 = p;
-                    c.pref64_lifetime = l;
-                    out.push(("pref64".into(), c));
-                }
-            }
-            for p in 0..portal_choices().len() {
-                let mut c = b.clone();
-                c.portal = p;
-                out.push(("portal".into(), c));
             }
         }
     }
@@ -873,7 +955,7 @@ pub fn run(tier: &str, replay: Option<Value>) -> ! {
     }
     rep.cov("evaluations", cfgs.len() as u64);
     rep.cov("distinct_nontrivial", distinct_yaml.len() as u64);
-    rep.cov("rule", "interface configurations from the grammar (full product inside each group: header, timers, mtu x interface-mtu x lladdr, prefix lists of length <=2 (thorough <=3) over 7 prefixes, rdnss x lifetime, dnssl x lifetime, pref64 x lifetime, captive portal) x top-level defaults {absent,present} x 3 base contexts {all absent, all present, all null}; distinct = distinct YAML documents that reached the loader");
+    rep.cov("rule", "interface configurations from the grammar (full product inside each group: header, timers, mtu x interface-mtu x lladdr, prefix lists of length <=2 (thorough <=3) over 7 prefixes, rdnss x lifetime, dnssl x lifetime, pref64 x lifetime, captive portal) x top-level defaults {absent,present} x 3 base contexts {all absent, all present, all null}; the full product of every PAIR of groups (prefix lists cut to length <=1, timers sampled every 5th); thorough also every TRIPLE of the groups with <= 60 entries; distinct = distinct YAML documents that reached the loader");
     rep.cov("exhaustive", true);
     rep.cov("outcome_classes", json!(classes));
     rep.cov("samples", pick_samples(&samples, 6, rep.seed));
